@@ -35,6 +35,9 @@ _re_ident_or_num = re.compile(r'''(?x)
 ''')
 
 
+_BIDI_CONTROLS = '\u202a\u202b\u202c\u202d\u202e\u2066\u2067\u2068\u2069'
+
+
 def escape_string(s: str) -> str:
     # characters escaped according to
     # https://www.edgedb.com/docs/reference/edgeql/lexical#strings
@@ -49,6 +52,11 @@ def escape_string(s: str) -> str:
     result = result.replace('\n', '\\n')
     result = result.replace('\r', '\\r')
     result = result.replace('\t', '\\t')
+
+    # bidirectional control characters are not allowed verbatim
+    for c in _BIDI_CONTROLS:
+        if c in result:
+            result = result.replace(c, '\\u{:04x}'.format(ord(c)))
 
     return result
 
